@@ -21,7 +21,11 @@ Definition fpush (f : fixed) (x : A) : res (fixed * A) :=
   let* old := get_unchecked (fdata f) (first f) in
   Ok ({| first := next; fdata := set_nth (first f) x (fdata f) |}, old).
 
-Definition fwrapped (f : fixed) (i : nat) : res nat := rmod (first f + i) (flen f).
+(* get / get_mut: `(self.first + index % self.len()) % self.len()` -- the index is reduced BEFORE the offset is
+   added (repaired form, DESIGN F9: the earlier `(first + index) % len` overflowed usize for indices within `first`
+   of usize::MAX; the machine-level statement is in Ring/IndexArith.v) *)
+Definition fwrapped (f : fixed) (i : nat) : res nat :=
+  let* r := rmod i (flen f) in rmod (first f + r) (flen f).
 
 Definition fget (f : fixed) (i : nat) : res A :=
   let* w := fwrapped f i in get_checked (fdata f) w.
